@@ -10,7 +10,40 @@ T0 = datetime(2000, 1, 1)
 
 
 TICK = [timedelta(minutes=1)]  # the time lattice unit (H-SCHED runs may use other ticks, e.g. 1/3 s or 1 day)
-EPOCH = [T0]  # origin of the lattice (H-SCHED runs may start at other dates: before 1970, across 2038, far future)
+EPOCH = [None]  # origin of the lattice if not T0 (runs may start at other dates: before 1970, across 2038, far future)
+EPOCHS = [None, None, None, None, None, [1969, 12, 31, 23, 58], [1900, 2, 28, 23, 50], [2400, 2, 28, 23, 0], [2038, 1, 19, 3, 10]]
+
+
+def origin():
+    return EPOCH[0] if EPOCH[0] is not None else T0
+
+
+def with_epoch(fn):
+    """slot-level checks: case["t0"] (optional) replaces the base date T0 for the duration of the check"""
+    import functools
+
+    @functools.wraps(fn)
+    def wrapped(case, ctx):
+        t0 = case.get("t0") if isinstance(case, dict) else None
+        if not t0:
+            return fn(case, ctx)
+        g = globals()
+        old = g["T0"]
+        g["T0"] = datetime(*t0)
+        ctx.event("base-date=" + g["T0"].isoformat())
+        try:
+            return fn(case, ctx)
+        finally:
+            g["T0"] = old
+
+    return wrapped
+
+
+def plus_epoch(strategy):
+    """adds "t0" (drawn from EPOCHS) to the dict cases of a strategy"""
+    from hypothesis import strategies as st
+
+    return st.builds(lambda c, t0: dict(c, t0=t0), strategy, st.sampled_from(EPOCHS))
 
 
 def tick():
@@ -19,11 +52,11 @@ def tick():
 
 def tm(minutes):
     """time on the integer lattice (default tick: one minute)"""
-    return EPOCH[0] + int(minutes) * TICK[0]
+    return origin() + int(minutes) * TICK[0]
 
 
 def mins(t):
-    return None if t is None else int(round((t - EPOCH[0]) / TICK[0]))
+    return None if t is None else int(round((t - origin()) / TICK[0]))
 
 
 def make_adapter(spec):
